@@ -16,6 +16,8 @@ ASSUMPTIONS = ['array readers are exercised with ASCII format only through C01 (
 POOL = [
     (b'1', 'dec', 1), (b'-5', 'dec', -5), (b'+7', 'dec', 7), (b'42', 'dec', 42), (b'0', 'dec', 0), (b'1.5', 'dec', None), (b'1e3', 'dec', None), (b'-2.5E-3', 'dec', None), (b'12.', 'dec', None),
     (b'12 MV', 'decsuf', 'known'), (b'3.3mv', 'decsuf', 'known'), (b'10 khz', 'decsuf', 'known'), (b'5 S', 'decsuf', 'known'), (b'1V', 'decsuf', 'known'), (b'7 xyz', 'decsuf', 'unknown'), (b'2 Q/x', 'decsuf', 'unknown'),
+    # a suffix that makes the literal look like a C99 hexadecimal constant is still an unknown suffix of the number 0
+    (b'0XFF', 'decsuf', 'unknown'), (b'0xbeef', 'decsuf', 'unknown'), (b'0XA.B', 'decsuf', 'unknown'), (b'0 XC', 'decsuf', 'unknown'),
     (b'#HFF', 'nd', 255), (b'#hff', 'nd', 255), (b'#Q17', 'nd', 15), (b'#B101', 'nd', 5),
     (b'MAX', 'chr', 'special'), (b'min', 'chr', 'special'), (b'DEFAULT', 'chr', 'special'), (b'INF', 'chr', 'special'), (b'UP', 'chr', 'special'),
     (b'ON', 'chr', 'bool'), (b'OFF', 'chr', 'bool'), (b'on', 'chr', 'bool'),
